@@ -31,6 +31,7 @@ SIG = {
     -7: 'C14:path-contains-pc=:name-changes',
     -8: 'C14:repeated-sentinel:name-changes',
     -9: 'C14:monitor:outcome-differs-from-name-derivation',
+    -10: 'C14:symbol-line-without-paren:name-changes',
 }
 TEXT = {
     -1: 'the counter name is longer than the 4096-byte limit',
@@ -40,6 +41,7 @@ TEXT = {
     -5: 'a malformed report gives a name with a frame that is no PC of the first running goroutine (or more than 16)',
     -7: 'two renderings of one report that differ only in " pc=" inside a file path give different names (F17)',
     -8: 'a later line "sentinel <hex>" (message text, not the parent\'s first line) changes the result: the report read with that line as ordinary text is in the genuine format, but the outcome is neither its name nor an error',
+    -10: 'a symbol line of the first running goroutine without "(" (its location line kept) gives another name instead of the name of the report with the symbol restored, or an error: a frame is silently dropped',
     -9: 'a monitor process fed the crash text through its stdin records something else than the name derivation gives for that text (the size of a message / argument / path changes the result, or the crash is not recorded)',
     -6: 'a genuine traceback of a stack deeper than 100 frames ("...N frames elided...") is refused with an error instead of naming its top 16 frames',
 }
@@ -117,13 +119,13 @@ def run(ctx):
     view = 'ViewFull' if ctx.thorough() else 'View'
     runs = [('cover', 'PrefixEmpty', 40, view)]
     if ctx.thorough():
-        runs += [('seq-hdr', 'PrefixHdr', 6, None), ('seq-trap', 'PrefixTrap', 8, None), ('seq-empty', 'PrefixEmpty', 3, None), ('seq-odd', 'PrefixOdd', 9, None)]
+        runs += [('seq-hdr', 'PrefixHdr', 6, None), ('seq-trap', 'PrefixTrap', 8, None), ('seq-empty', 'PrefixEmpty', 3, None), ('seq-odd', 'PrefixOdd', 9, None), ('seq-nosym', 'PrefixNoSym', 9, None)]
     else:
-        runs += [('seq-hdr', 'PrefixHdr', 4, None), ('seq-empty', 'PrefixEmpty', 2, None), ('seq-odd', 'PrefixOdd', 8, None)]
+        runs += [('seq-hdr', 'PrefixHdr', 4, None), ('seq-empty', 'PrefixEmpty', 2, None), ('seq-odd', 'PrefixOdd', 8, None), ('seq-nosym', 'PrefixNoSym', 8, None)]
     vectors = []
     seen = set()
     for (label, prefixes, maxlen, vw) in runs:
-        cfg = ('SPECIFICATION Spec\nINVARIANTS Agree RepIgnored CapOK EraseOK OnlyContribution TrapRule\nPROPERTIES PostStable\n'
+        cfg = ('SPECIFICATION Spec\nINVARIANTS Agree RepIgnored SymTextOK CapOK EraseOK OnlyContribution TrapRule\nPROPERTIES PostStable\n'
                'CHECK_DEADLOCK FALSE\n%sCONSTANTS\n MaxLen = %d\n Prefixes <- %s\n' % ('VIEW %s\n' % vw if vw else '', maxlen, prefixes))
         r = ctx.tlc('CrashParseMC', cfg_text=cfg, dump=True, label='CrashParseMC-' + label, timeout=2400)
         if not r.ok:
